@@ -92,3 +92,19 @@ Example rt_example : d8_to_array 2 (d8_from_array 2 2 [1; 4; 247; 255]) = Some [
   /\ ldd_to_array 2 (d8_from_array 2 2 [1; 4; 247; 255]) = Some [6; 2; 255; 5]
   /\ map d8_to_ldd [1; 4; 247; 255; 3] = [6; 2; 255; 5; 255].
 Proof. vm_compute. auto. Qed.
+
+(* the encoders regenerated from the source (generated/GenCodec.v, tools/gen_codec.py) ARE the models; None = the ValueError *)
+From PF Require Import GenCodecToEq GenCodecXYEq.
+From PFG Require Import GenCodec.
+Theorem gen_d8_to_array_eq : forall (nrow : Z) (ncol : nat) (ds : list nat),
+  gen_d8_to_array ds (nrow, Z.of_nat ncol) = d8_to_array ncol ds.
+Proof. exact GenCodecToEq.gen_d8_to_array_eq. Qed.
+Print Assumptions gen_d8_to_array_eq.
+Theorem gen_ldd_to_array_eq : forall (nrow : Z) (ncol : nat) (ds : list nat),
+  gen_ldd_to_array ds (nrow, Z.of_nat ncol) = ldd_to_array ncol ds.
+Proof. exact GenCodecToEq.gen_ldd_to_array_eq. Qed.
+Print Assumptions gen_ldd_to_array_eq.
+Theorem gen_nextxy_to_array_eq : forall (nrow : Z) (ncol : nat) (ds : list nat),
+  gen_nextxy_to_array ds (nrow, Z.of_nat ncol) = nextxy_to_array ncol ds.
+Proof. exact GenCodecXYEq.gen_nextxy_to_array_eq. Qed.
+Print Assumptions gen_nextxy_to_array_eq.
